@@ -249,9 +249,7 @@ def check(ctx):
                "source template", "", "the generated source no longer enumerates topology.atoms in order with the condition as filter")
     # .expr is compiled from the node .source is unparsed from
     call = ctx.py.func(SEL, "parse_selection.__call__")
-    s = src(call)
-    ok = "source = unparse(astnode)" in s and "ast.Lambda(signature, astnode)" in s and "_ParsedSelection(expr, source, astnode)" in s
-    ctx.decide(ok, "C12-R5", call, SEL, "parse_selection.__call__", "expr and source derive from one astnode", "", "expr and source are no longer built from the same AST node")
+    lit_world = _call_by_evaluation(ctx, call)
 
     # ---------------- R6 -----------------------------------------------------------------------
     cfg = CFG(call)
@@ -268,9 +266,10 @@ def check(ctx):
     handlers = [n for n in walk_no_nested(call) if isinstance(n, ast.ExceptHandler)]
     ok = bool(handlers) and all(any(isinstance(s2, ast.Raise) for s2 in h.body) and not any(isinstance(s2, ast.Return) for s2 in ast.walk(h)) for h in handlers)
     ctx.decide(ok, "C12-R6", call, SEL, "parse_selection.__call__", "ParseException handler re-raises", "", "a parse error is swallowed")
-    single = [n for n in walk_no_nested(call) if isinstance(n, ast.If) and "isinstance(astnode, ast.Constant)" in src(n.test)]
-    ctx.decide(bool(single) and any(isinstance(s2, ast.Raise) for s2 in single[0].body), "C12-R6", call, SEL, "parse_selection.__call__", "single literal rejected", "",
-               "a bare literal is accepted as a selection")
+    if lit_world is None:
+        ctx.undecided("C12-R6", call, SEL, "parse_selection.__call__", "single literal rejected", "not evaluable (see C12-R5)")
+    else:
+        ctx.decide(not lit_world, "C12-R6", call, SEL, "parse_selection.__call__", "single literal rejected", "", "; ".join(lit_world)[:400])
     for cname, needle in (("UnaryInfixOperand", "Cannot use literals as booleans"), ("BinaryInfixOperand", "Cannot compare literals"),
                           ("BinaryInfixOperand", "Cannot use literals as truth"), ("RangeCondition", "test literal in range"), ("RegexInfixOperand", "regex comparison on literal")):
         f = ctx.py.func(SEL, cname + ".__init__")
@@ -551,6 +550,71 @@ def memo_coherence(ctx, rule):
             ctx.decide(resets, rule, m, TOP, "Topology." + name, "memo %s reset when %s change" % (f, sorted(touches)), "",
                        "Topology.%s changes %s but does not reset the memo `%s` filled by %s: an attribute served from it (e.g. through a selection keyword) describes the topology before the change"
                        % (name, sorted(touches), f, info["filled_in"]))
+
+
+def _call_by_evaluation(ctx, call):
+    """parse_selection.__call__ evaluated on a model parser (parseString hands back one token whose .ast() is a marker node; the transformer,
+    deepcopy, unparse, ast.Lambda / Expression / fix_missing_locations, compile and eval are recorded): the callable that is returned is compiled
+    from a lambda whose body is the very node the source text is unparsed from and that is handed on as .astnode; a node that is a bare constant
+    other than True / False / None is refused, the three singletons are not.  Returns the problems of the literal worlds (None: not evaluable)."""
+    from ..tensym import TenSym, Obj, Unsupported as TUnsupported
+
+    def world(kind, value):
+        mk = lambda stage: Obj(_isa=(kind,), tag="node " + stage, value=value, _lenient=True)
+        raw, copied, node = mk("as parsed"), mk("copied"), mk("transformed")        # three distinct objects: only the transformed one may reach the result
+        me = Obj(is_initialized=True, _lenient=True)
+        me.expression = Obj(parseString=lambda s_, parseAll=False: [Obj(ast=lambda: raw)] if parseAll is True else [Obj(ast=lambda: Obj(tag="prefix only"))])
+        me.transformer = Obj(visit=lambda n_: node if (n_ is copied or n_ is raw) else Obj(tag="the transformer was handed something else"))       # a copy is not demanded: .ast() builds fresh nodes
+        me._initialize = lambda: None
+        got = []
+
+        def arg(ev, c, k, name=None):
+            for kw_ in c.keywords:
+                if kw_.arg == name:
+                    return ev.ex(kw_.value)
+            return ev.ex(c.args[k])
+        dc = lambda ev, c: copied if ev.ex(c.args[0]) is raw else Obj(tag="copy of something else")
+        models = {"deepcopy": dc, "copy.deepcopy": dc,
+                  "unparse": lambda ev, c: Obj(tag="source", of=ev.ex(c.args[0])), "ast.unparse": lambda ev, c: Obj(tag="source", of=ev.ex(c.args[0])),
+                  "ast.arg": lambda ev, c: Obj(tag="arg"), "ast.arguments": lambda ev, c: Obj(tag="arguments"),
+                  "ast.Lambda": lambda ev, c: Obj(tag="lambda", body=arg(ev, c, 1, "body")), "ast.Expression": lambda ev, c: Obj(tag="expression", body=arg(ev, c, 0, "body")),
+                  "ast.fix_missing_locations": lambda ev, c: ev.ex(c.args[0]), "compile": lambda ev, c: Obj(tag="code", of=ev.ex(c.args[0])),
+                  "eval": lambda ev, c: Obj(tag="callable", of=ev.ex(c.args[0])),
+                  "_ParsedSelection": lambda ev, c: got.append([ev.ex(a_) for a_ in c.args]) or Obj(tag="parsed")}
+        ev = TenSym({"__g_x": 0, "SELECTION_GLOBALS": Obj(tag="globals")}, models=models)
+        try:
+            ev.run_fn(call, self=me, selection="S")
+        except TUnsupported as e:
+            if "path raises" in str(e):
+                return "refused", node, got
+            raise
+        return "accepted", node, got
+    try:
+        res, node, got = world("Compare", None)
+        pr = []
+        if res != "accepted" or len(got) != 1 or len(got[0]) != 3:
+            pr.append("a comparison node is %s (%d results)" % (res, len(got)))
+        else:
+            expr, source, third = got[0]
+            body = expr
+            for attr in ("of", "of", "body", "body"):       # callable <- code <- expression <- lambda <- node
+                body = getattr(body, attr, None)
+            if body is not node:
+                pr.append(".expr is not compiled from `lambda atom: <the transformed node>`")
+            if getattr(source, "of", None) is not node:
+                pr.append(".source is not unparsed from the node .expr is compiled from")
+            if third is not node:
+                pr.append(".astnode is not that node")
+        ctx.decide(not pr, "C12-R5", call, SEL, "parse_selection.__call__", "expr and source derive from one astnode (evaluated on a model parser)", "", "; ".join(pr)[:400])
+        lit = []
+        for kind, value, want in (("Constant", "CA", "refused"), ("Constant", 5, "refused"), ("Constant", True, "accepted"), ("Constant", False, "accepted"), ("Constant", None, "accepted"), ("Compare", None, "accepted")):
+            res, _, _ = world(kind, value)
+            if res != want:
+                lit.append("a selection that is the single node %s(%r) is %s (documented: %s)" % (kind, value, res, want))
+        return lit
+    except TUnsupported as e:
+        ctx.undecided("C12-R5", call, SEL, "parse_selection.__call__", "expr and source derive from one astnode", "not evaluable: %s" % e)
+        return None
 
 
 def _r8_infix_by_evaluation(ctx):
